@@ -1486,7 +1486,14 @@ func init() {
 			}
 			return nil
 		},
-		"(*sync.Pool).Put": fNop,
+		"(*sync.Pool).Put":       fNop,
+		"(*sync.WaitGroup).Add":  fNop,
+		"(*sync.WaitGroup).Done": fNop,
+		"(*sync.WaitGroup).Wait": fNop,
+		"(*sync.WaitGroup).Go": func(m *Machine, fr *frame, pos token.Pos, args []value) value {
+			m.call(fr, pos, args[1], nil)
+			return nil
+		},
 		"(*sync.Pool).Get": func(m *Machine, fr *frame, pos token.Pos, args []value) value {
 			p, _ := args[0].(*value)
 			if p == nil {
